@@ -31,6 +31,29 @@ def one(C, drv, L, np, n, rp_extra=None):
     o = drv.ask(f'n.weighted {enc_bits(float(w) for w in ws)} {enc_bits(float(v) for v in vals)}')
     if int(o) != fbits(float(out)) and not (bits2f(o) == float(out)):
         C.issue('weighted-mismatch', 'correspondence', rp, model=bits2f(o), real=float(out))
+    # a second call on the same array object after an in-place change, and a repeated call on equal input:
+    # the value must follow the argument and every component must be evaluated again
+    calls.clear()
+    f2 = L['WeightedFunction'](functions=[(lambda i: (lambda z: float(np.sum(z)) * (i + 1)))(i) for i in range(n)], weights=list(ws))
+    seen = []
+    f3 = L['WeightedFunction'](functions=[(lambda i: (lambda z: (seen.append(i), float(np.sum(z)) * (i + 1))[1]))(i) for i in range(n)], weights=list(ws))
+    buf = np.array(x0, copy=True)
+    for step in range(3):
+        want = 0
+        for i, w in enumerate(ws):
+            want += w * (float(np.sum(buf)) * (i + 1))
+        seen.clear()
+        got = f3.pointer(buf)
+        if float(got) != float(want):
+            C.issue('stale-value-after-in-place-change', 'oracle', dict(how='weighted-seq', ws=ws, step=step), got=float(got), expected=float(want))
+            break
+        if seen != list(range(n)):
+            C.issue('components-not-called-once-in-order', 'oracle', dict(how='weighted-seq', ws=ws, step=step), calls=list(seen))
+            break
+        if step == 0:
+            pass            # same input again
+        else:
+            buf += 0.5      # mutate the very same array in place
     C.case(key=(tuple(ws), tuple(vals)), nontrivial=n >= 2 and any(w != 1 for w in ws), kind=f'n={n}',
            sample=dict(rp, value=float(out)) if n >= 3 else None)
 
@@ -50,8 +73,13 @@ def check(ctx):
             cfg = dict(cfg, objective='weighted', hook='observer')
             if kind == 'WCA':
                 cfg['n_agents'] = max(cfg['n_agents'], 3)
-            r = runpass.analyse_run(cfg, drv, props=['C03', 'C02'])
-            bad = [i for p in ('C03', 'C02') for i in r['issues'][p] if not i.get('known')] + r['machine']['issues']
+            r = runpass.analyse_run(cfg, drv, props=['C03', 'C02', 'C20'])
+            bad = [i for p in ('C03', 'C02', 'C20') for i in r['issues'][p] if not i.get('known')] + r['machine']['issues']
+            # single-agent task (optimisers that move agents in place re-use one array between evaluations)
+            if kind not in ('WCA', 'GP'):
+                cfg1 = dict(cfg, n_agents=1, n_iter=4)
+                r1 = runpass.analyse_run(cfg1, drv, props=['C03', 'C02', 'C20'])
+                bad += [i for p in ('C03', 'C02', 'C20') for i in r1['issues'][p] if not i.get('known')] + r1['machine']['issues']
             if bad:
                 C.issue('weighted-objective-run', 'oracle', dict(how='runlevel', cfg=cfg), detail=bad[:2])
             C.case(key=('run', kind), nontrivial=True, kind='optimise-' + kind)
